@@ -252,3 +252,45 @@ func LoadRareNonces() ([]RareNonce, error) {
 	}
 	return v, nil
 }
+
+// SpecialPoint is a curve point with a coordinate from a class that random points never show (2^-32
+// and rarer): a coordinate in [n, p) - canonical as a field element, not below the group order -, a
+// tiny coordinate, x = 0. Points with a chosen y come from fixtures/sm2_special_points.json (a cubic had
+// to be solved, tools/fixturegen/mk_special_points.py); points with a chosen x are lifted here. Every
+// point is checked against the curve equation by the model.
+type SpecialPoint struct {
+	X, Y, Class string
+}
+
+func SpecialPoints() ([]Pt, []string, error) {
+	var v []SpecialPoint
+	if err := load("sm2_special_points.json", &v); err != nil {
+		return nil, nil, err
+	}
+	var pts []Pt
+	var cls []string
+	for i, sp := range v {
+		x, y := hexInt(sp.X), hexInt(sp.Y)
+		if !OnCurve(x, y) {
+			return nil, nil, fmt.Errorf("special point fixture %d is not on the curve", i)
+		}
+		pts, cls = append(pts, Pt{X: x, Y: y}), append(cls, sp.Class)
+	}
+	lift := func(x0 *big.Int, dir int64, c string, count int) {
+		x := new(big.Int).Set(x0)
+		for got := 0; got < count; x.Add(x, big.NewInt(dir)) {
+			if x.Sign() < 0 || x.Cmp(SM2P) >= 0 {
+				return
+			}
+			if p, ok := LiftX(x); ok {
+				pts, cls = append(pts, p, p.Neg()), append(cls, c, c)
+				got++
+			}
+		}
+	}
+	lift(SM2N, 1, "x>=n", 2)
+	lift(new(big.Int).Sub(SM2P, big.NewInt(1)), -1, "x>=n", 2)
+	lift(new(big.Int).Sub(SM2N, big.NewInt(1)), -1, "x<n-edge", 1)
+	lift(big.NewInt(0), 1, "x-tiny", 3)
+	return pts, cls, nil
+}
